@@ -4,3 +4,4 @@ import SweepG.Sample
 import SweepG.Poly
 import SweepG.Px
 import SweepG.Mono
+import SweepG.Quire16
